@@ -73,6 +73,19 @@ def _parse(
         if parsed.duration is not None:
             duration = parsed.duration
 
+            if RustDuration is not None and isinstance(duration, RustDuration):
+                # Same (normalized) components as with the pure-Python parser
+                duration = pendulum.duration(
+                    years=duration.years,
+                    months=duration.months,
+                    weeks=duration.weeks,
+                    days=duration.days,
+                    hours=duration.hours,
+                    minutes=duration.minutes,
+                    seconds=duration.seconds,
+                    microseconds=duration.microseconds,
+                )
+
             if parsed.start is not None:
                 dt = _as_datetime(parsed.start, **options)
 
